@@ -31,6 +31,9 @@ std::string byte_soup(Rng& rng, const ref::Model* m, int n);
 // replaces the lexeme of one token by a very long one (>= 64 KiB) of the same term; false if the sentence has no stretchable term
 bool stretch_one_lexeme(PlanOp& op, Rng& rng, const ref::Model& m, size_t target_len);
 
+// deeply nested / long right-recursive sentence whose value stack crosses `target` entries (1024, 2048, ...) by a few either way
+bool make_deep_op(PlanOp& op, Rng& rng, const std::string& key, int target);
+
 Plan single_op_plan(const std::string& property, uint64_t seed, int64_t index, const std::string& mode, const PlanOp& op);
 
 Violation make_violation(const std::string& prop, const std::string& cls, const std::string& detail, const Plan& p);
